@@ -640,6 +640,7 @@ pub struct L2Report {
     pub failures: Vec<L2Failure>,
     pub sample: String,
     pub probe: crate::probe::ProbeReport,
+    pub ties: crate::ties::TieReport,
 }
 
 fn exempt(class: usize, a: usize, b: usize) -> bool {
@@ -676,6 +677,22 @@ fn run_probe(only: Option<&str>, (p_from, n_probes): (u64, u64), failures: &mut 
     };
     for f in &rep.failures {
         failures.push(L2Failure { kind: "probe-insensitive".into(), family: format!("probe/{}", f.idx), detail: f.detail.clone() });
+    }
+    rep
+}
+
+/// L2t: random tie problems through every route (see `ties.rs`); a fifth of
+/// the probe budget.
+fn run_ties(only: Option<&str>, (p_from, n_probes): (u64, u64), failures: &mut Vec<L2Failure>) -> crate::ties::TieReport {
+    let rep = match only {
+        None => crate::ties::run_range(p_from / 5, p_from / 5 + n_probes / 5),
+        Some(o) => match o.strip_prefix("tie/").and_then(|x| x.parse::<u64>().ok()) {
+            Some(i) => crate::ties::run_range(i, i + 1),
+            None => crate::ties::TieReport::default(),
+        },
+    };
+    for f in &rep.failures {
+        failures.push(L2Failure { kind: "tie-route-disagrees".into(), family: format!("tie/{}", f.idx), detail: f.detail.clone() });
     }
     rep
 }
@@ -972,7 +989,8 @@ fn run_on_this_thread(only: Option<&str>, n_probes: (u64, u64)) -> L2Report {
     }
     let _ = agreeing;
     let probe = run_probe(only, n_probes, &mut failures);
-    L2Report { families: n_fams, witness_evals, pairs_separated: pairs, failures, sample, probe }
+    let ties = run_ties(only, n_probes, &mut failures);
+    L2Report { families: n_fams, witness_evals, pairs_separated: pairs, failures, sample, probe, ties }
 }
 
 /// The value of an outcome as (coefficient, scale), if it has one.
@@ -1011,7 +1029,7 @@ pub fn cmp_values(a: (i128, u32), b: (i128, u32)) -> Option<std::cmp::Ordering> 
 /// rows[mode][witness] -> per witness eight codes: 0 smaller candidate,
 /// 1 larger candidate, 2 all modes agree, 3 not orderable / more than two
 /// candidates / no value (panic, None, error).
-fn pattern(rows: &[Vec<Outcome>]) -> Vec<u8> {
+pub fn pattern(rows: &[Vec<Outcome>]) -> Vec<u8> {
     let n = rows[0].len();
     let mut p = Vec::with_capacity(n * 8);
     for i in 0..n {
